@@ -396,7 +396,7 @@ func c17Check(env *core.Env, cc core.Case) core.Verdict {
 				continue // it has no assembly file in this tree
 			}
 			cm := sut.Run(sut.Cmd{Bin: env.Bin, Args: []string{"-d", root, "regex", "compare", id}, Dir: root, Timeout: 120 * 1e9})
-			if cm.Exit != 0 || !strings.Contains(string(cm.Stdout), "has not changed") {
+			if cm.Exit != 0 || strings.Contains(string(cm.Stdout), "has changed") {
 				return core.Viol("compare-after-update:long-line", "compare %s right after update (the rules file has a line of %d bytes): exit %d, stdout %s", id, len(line), cm.Exit, core.Q(tail(cm.Stdout, 2)))
 			}
 		}
